@@ -620,6 +620,7 @@ func streamCHist(c *Ctx) {
 		}
 		c.emit(fmt.Sprintf("css new %s 0", hx(ns.Bytes())), "ok")
 		css := share.NewCompactShareSplitter(ns, 0)
+		hcnt := share.NewCompactShareCounter()
 		var writes [][]byte
 		k := c.rng.Range(2, 10)
 		desc := ""
@@ -634,8 +635,16 @@ func streamCHist(c *Ctx) {
 				}
 				t := c.rng.Bytes(n)
 				writes = append(writes, t)
+				before := css.Count()
 				c.emit("css write "+hx(t), okErr(css.WriteTx(t)))
 				desc += fmt.Sprintf("w%d ", n)
+				// C13 after any history: a counter fed the same writes reports the splitter's share count and
+				// increment, whatever exports and counts happened in between
+				c.oracle()
+				d := hcnt.Add(n)
+				if after := css.Count(); after != hcnt.Size() || after-before != d {
+					c.violate("C13", "", fmt.Sprintf("after the splitter history [%s] the splitter counts %d shares (+%d for the last write); a counter fed the same writes reports %d (+%d)", strings.TrimSpace(desc), after, after-before, hcnt.Size(), d), "", c.caseOps)
+				}
 				if sawExport {
 					exportBetween = true
 				}
